@@ -81,12 +81,22 @@ def run(run, binfo):
         fmts = {l: rng.choice(['json', 'yaml']) for l in LAYERS}
         shutil.rmtree(root, ignore_errors=True)
         os.makedirs(root)
-        mode = ['override', 'override+dup', 'config_file', 'override'][i % 4]
+        mode = ['override', 'override+dup', 'config_file', 'override+abs'][i % 4]
         from loadsim import DIRS
         dirs = list(DIRS) + (['policy.d'] if mode == 'override+dup' else [])
         fs, defaults = build(root, assign, main_present, fmts, dirs)
-        e = make_enforcer(root, defaults, dirs=dirs, dirs_via='config_file' if mode == 'config_file' else 'override')
-        e.load_rules()
+        # (the directories may also be configured by absolute path, the missing ones included)
+        cfg_dirs = [os.path.join(root, d) for d in dirs] if mode == 'override+abs' else dirs
+        e = make_enforcer(root, defaults, dirs=cfg_dirs, dirs_via='config_file' if mode == 'config_file' else 'override')
+        try:
+            e.load_rules()
+        except Exception as ex:   # noqa
+            run.violation('load-error', 'loading the layout fails with %s: %s' % (type(ex).__name__, str(ex)[:200]),
+                          {'kind': 'failing-input', 'suite': 'spec-c09',
+                           'input': {'assign': {k: sorted(v) for k, v in assign.items()},
+                                     'main_present': main_present, 'fmts': fmts, 'dirs_mode': mode},
+                           'expected': 'the layered policy', 'observed': type(ex).__name__})
+            continue
         obs = observe(e)
         mod = model_history([1, enc_defaults(defaults), 1], [[fs.wire(), 0]])[0]
         spec = run_batch([[11, [1, enc_defaults(defaults), 1], fs.wire(), [S(n) for n in NAMES]]])[0]
